@@ -675,10 +675,9 @@ def _parse_output_options(output_opts, level, phase_assemblage):
         output_opts[level] = list(phase_assemblage)
         return
     try:
-        output_opts[level] = [
-            getattr(_core.MineralPhase, ϕ) for ϕ in output_opts[level]
-        ]
-    except AttributeError:
+        # Look up members by name: `getattr` would also resolve methods and dunders.
+        output_opts[level] = [_core.MineralPhase[ϕ] for ϕ in output_opts[level]]
+    except (KeyError, TypeError):
         raise _err.ConfigError(
             f"unsupported mineral phase in '{level}' output option.\n"
             + f" You supplied the value: {output_opts[level]}.\n"
@@ -694,8 +693,9 @@ def _parse_output_options(output_opts, level, phase_assemblage):
 def _parse_phase(ϕ: str | _core.MineralPhase | int) -> _core.MineralPhase:
     if isinstance(ϕ, str):
         try:
-            return getattr(_core.MineralPhase, ϕ)
-        except AttributeError:
+            # Look up members by name: `getattr` would also resolve methods and dunders.
+            return _core.MineralPhase[ϕ]
+        except KeyError:
             raise _err.ConfigError(f"invalid phase in phase assemblage: {ϕ}") from None
     elif isinstance(ϕ, _core.MineralPhase):
         return ϕ
